@@ -1161,13 +1161,22 @@ pub fn step(cfg: &Cfg, sut: &mut Sut, m: &mut Model, pre: &Snapshot, op: Op, has
         }
     }
 
+    // ---- C14 (cache clause): the table is allocated once, when the sketch is enabled;
+    // allocating it again forgets every recorded lookup without an aging step
+    if pre.sketch.table_len > 0 && post.sketch.table_len != pre.sketch.table_len && !pre.sketch.table.is_empty() {
+        viol.push(v(
+            "C14",
+            format!("{kdn}:sketch-reallocated:{okind}"),
+            format!("after {}: the popularity table went from {} to {} words and lost {} non-zero words of counts", op.text(), pre.sketch.table_len, post.sketch.table_len, pre.sketch.table.len()),
+        ));
+    }
     // ---- C14 (cache clause): only get is recorded, once
     if pre.sketch.table_len == post.sketch.table_len && (pre.sketch.size as u64 + 4 < pre.sketch.sample_size as u64 || pre.sketch.table_len == 0) {
         let mut want: BTreeMap<u32, u64> = pre.sketch.table.iter().cloned().collect();
         let mut hashes: Vec<u64> = Vec::new();
         if u {
             if let Op::Get(k) = op {
-                hashes.push(hasher.table[k as usize]);
+                hashes.push(hasher.hash_of(k));
             }
         } else {
             let mut all: Vec<u64> = pre
@@ -1179,7 +1188,7 @@ pub fn step(cfg: &Cfg, sut: &mut Sut, m: &mut Model, pre: &Snapshot, op: Op, has
                 })
                 .collect();
             if let Op::Get(k) = op {
-                all.push(hasher.table[k as usize]);
+                all.push(hasher.hash_of(k));
             }
             let applied = all.len().saturating_sub(post.read_ops.len());
             hashes.extend_from_slice(&all[..applied]);
